@@ -216,11 +216,85 @@ def run_random(ctx, n):
     hyp_search(ctx, strat(), fn, n, name='C03-random')
 
 
+def history_script(hist, cuts_per_run, b2b):
+    """Script for a generated history (vf/checks/c05.walk).  cuts_per_run = None: every PDU in its own segment
+    after quiescence (reference).  Otherwise maximal runs of consecutive peer PDUs are concatenated and re-cut at
+    the given offsets (a list per run)."""
+    from .. import history as H, refpdu
+    actions = []
+    run_bytes = []
+    run_i = [0]
+
+    def flush():
+        if not run_bytes:
+            return
+        if cuts_per_run is None:
+            for b in run_bytes:
+                actions.append({'k': 'seg', 'data': b, 'eager': False})
+        else:
+            stream = b''.join(run_bytes)
+            cuts = cuts_per_run[run_i[0]] if run_i[0] < len(cuts_per_run) else []
+            offs = [0] + sorted({c % len(stream) for c in cuts if len(stream) > 1 and c % len(stream)}) + [len(stream)]
+            for k, (a, b) in enumerate(zip(offs, offs[1:])):
+                actions.append({'k': 'seg', 'data': stream[a:b], 'eager': b2b and k > 0})
+        run_i[0] += 1
+        del run_bytes[:]
+    for act in hist:
+        if act['a'] == 'pdu':
+            run_bytes.append(refpdu.enc_pdu(act['spec']))
+        elif act['a'] == 'raw':
+            run_bytes.append(act['data'])
+        else:
+            flush()
+            actions.extend(H.to_script([dict(act, eager=False)]))
+    flush()
+    return actions
+
+
+def observe_script(role, actions):
+    sim = simnet.run_scenario(role, actions, budget=60000)
+    out = sim.outcome
+    return {'outcome': out[0] if out[0] != 'exception' else 'exception:' + lib_frame(out[1]),
+            'detail': '' if out[0] == 'returned' else repr(out[1]),
+            'inds': [convs.describe_ind(i) for i in sim.indications()], 'wire': sim.wire(),
+            'final': {k: v for k, v in sim.final().items() if k in ('state', 'closed', 'sock_none')}, 'dropped': sim.dropped}
+
+
+def run_generated(ctx, n):
+    """Segmentation invariance over GENERATED conversations (the random walks of C05) instead of a fixed corpus."""
+    from .c05 import walk
+
+    @st.composite
+    def strat(draw):
+        role, hist = draw(walk(max_len=16))
+        cuts = [draw(st.lists(st.integers(1, 4000), min_size=0, max_size=5)) for _ in range(8)]
+        return role, hist, cuts, draw(st.booleans())
+
+    def fn(value):
+        role, hist, cuts, b2b = value
+        hist = [dict(a, eager=False) if a['a'] in ('pdu', 'raw', 'close') else a for a in hist]
+        npdu = len([a for a in hist if a['a'] in ('pdu', 'raw')])
+        if not npdu:
+            return
+        case = {'generated': True, 'role': role, 'history': hist, 'cuts': cuts, 'b2b': b2b}
+        base = observe_script(role, history_script(hist, None, False))
+        got = observe_script(role, history_script(hist, cuts, b2b))
+        ctx.case(('gen', role, hist, cuts, b2b), any(cuts[:npdu]), labels=['generated-conversation', 'role=' + role],
+                 sample={'role': role, 'history_len': len(hist), 'cuts': cuts[:3], 'b2b': b2b})
+        compare('generated conversation', base, got, case)
+    hyp_search(ctx, strat(), fn, n, name='C03-generated')
+
+
+def shard_generated(ctx, job):
+    warnings.simplefilter('ignore')
+    run_generated(ctx, job['n'])
+
+
 def run(ctx):
     warnings.simplefilter('ignore')
     corpus = convs.corpus()
     ctx.rule = ('for each of %d conversations (both roles): whole-burst, one-byte dribble, every single cut '
-                'offset, pairs of cut offsets, Hypothesis k-cuts (k<=8); two long pipelined streams (> 64 KiB, incl. 30 kB PDUs) in chunks of 100..65536 bytes; x first segment already waiting or not x '
+                'offset, pairs of cut offsets, Hypothesis k-cuts (k<=8); Hypothesis-generated conversations (the random walks of C05) re-cut at random offsets; two long pipelined streams (> 64 KiB, incl. 30 kB PDUs) in chunks of 100..65536 bytes; x first segment already waiting or not x '
                 'segments back-to-back or each after quiescence; cuts are applied inside the byte string the peer '
                 'sends between two local actions; compared with one-PDU-per-segment delivery; non-trivial = a cut '
                 'falls strictly inside a PDU or >=2 PDUs share a segment; distinct by (conversation, cuts, modes)'
@@ -240,10 +314,16 @@ def run(ctx):
     parallel(ctx, run_conv, jobs)
     run_long(ctx, 3000 if ctx.thorough else 900)
     run_random(ctx, 2000 if ctx.thorough else 300)
+    parallel(ctx, shard_generated, [{'n': 2000 if ctx.thorough else 60} for _ in range(16 if ctx.thorough else 8)])
 
 
 def replay(case):
     warnings.simplefilter('ignore')
+    if case.get('generated'):
+        base = observe_script(case['role'], history_script(case['history'], None, False))
+        got = observe_script(case['role'], history_script(case['history'], case['cuts'], case['b2b']))
+        compare('generated conversation', base, got, case)
+        return
     if 'long' in case:
         from ..common import Ctx
         sub = Ctx('C03', 'quick', 1)
